@@ -110,6 +110,12 @@ def positional_range(spec):
 
 # ---------------------------------------------------------------- building real classes
 
+def new_class(name, bases, ns, **kw):
+    """type(name, bases, ns, **kw) that also works with subscripted Generic[...] bases."""
+    import types
+    return types.new_class(name, tuple(bases), kw, lambda d: d.update(ns))
+
+
 _EXC = {'ValueError': ValueError, 'TypeError': TypeError, 'KeyError': KeyError, 'AttributeError': AttributeError,
         'ZeroDivisionError': ZeroDivisionError, 'AssertionError': AssertionError, 'RuntimeError': RuntimeError,
         'Exception': Exception, 'LookupError': LookupError, 'OverflowError': OverflowError}
